@@ -135,6 +135,14 @@ def gen_case(streams, tier):
             progs[i]['defaults'] = None
             progs[i]['mention_only'] = False
             progs[i]['targets'][0]['kind'] = 'wire'
+    # a defaults-program may be handed the very dict object of the previous defaults-program
+    seen_d = False
+    for p in progs:
+        if p['defaults'] is not None:
+            if seen_d and g.random() < 0.6:
+                p['shared_defaults'] = True
+                p['mention_only'] = False
+            seen_d = True
     # a later plain program may pick up the wire an earlier one only mentioned in defaults
     for i, p in enumerate(progs):
         p['adopt_mentioned'] = g.random() < 0.7
@@ -243,7 +251,31 @@ class BlockCtx(object):
         self.healthy = True
 
 
-def elaborate(prog, pi, ctx, res):
+def make_targets(prog, pi, ctx, res, adopt=True):
+    import pyrtl
+    live = []
+    for ti, t in enumerate(prog['targets']):
+        name = 'g%d_t%d' % (pi, ti)
+        if t['kind'] == 'wire':
+            if adopt and ti == 0 and ctx.mentioned and prog.get('adopt_mentioned') \
+                    and prog['defaults'] is None:
+                w = ctx.mentioned.pop()
+                res.probes.hit('adopted_mention_only_wire')
+            else:
+                w = pyrtl.WireVector(8, name)
+            live.append(w)
+        elif t['kind'] == 'reg':
+            live.append(pyrtl.Register(8, name))
+        else:
+            live.append(pyrtl.MemBlock(8, 2, name=name, max_write_ports=None,
+                                       asynchronous=True))
+    return live
+
+
+def elaborate(prog, pi, ctx, res, share_next=None, shared=None):
+    """share_next = (pj, progj, ctxj): the caller builds ONE defaults dict for this program and
+    for program pj (whose targets are created now, in ctxj) and passes the same object to both
+    conditional blocks; shared = (live, defaults) is what program pj then receives."""
     """Run one program in ctx.block. Returns ('ok', live targets) | ('aborted', reason) or a
     Violation."""
     import pyrtl
@@ -255,24 +287,16 @@ def elaborate(prog, pi, ctx, res):
     rej = first_rejection(prog['tree'])
     state = {'rejected_at': None}
     with pyrtl.set_working_block(blk, no_sanity_check=True):
-        for ti, t in enumerate(prog['targets']):
-            name = 'g%d_t%d' % (pi, ti)
-            if t['kind'] == 'wire':
-                if ti == 0 and ctx.mentioned and prog.get('adopt_mentioned') \
-                        and prog['defaults'] is None:
-                    w = ctx.mentioned.pop()
-                    res.probes.hit('adopted_mention_only_wire')
-                else:
-                    w = pyrtl.WireVector(8, name)
-                live.append(w)
-            elif t['kind'] == 'reg':
-                live.append(pyrtl.Register(8, name))
-            else:
-                live.append(pyrtl.MemBlock(8, 2, name=name, max_write_ports=None,
-                                           asynchronous=True))
+        if shared is not None:
+            live = shared[0]
+        else:
+            live = make_targets(prog, pi, ctx, res)
         defaults = None
         extra = None
-        if prog['defaults'] is not None:
+        if shared is not None:
+            defaults = shared[1]        # the very object an earlier block was given, as it is now
+            res.probes.hit('defaults_dict_shared_by_two_blocks')
+        elif prog['defaults'] is not None:
             # the caller may well build one defaults dict and pass the same object to several
             # conditional blocks of a design: every second defaults-program of a block does so
             reuse = getattr(ctx, 'defaults_obj', None)
@@ -287,6 +311,13 @@ def elaborate(prog, pi, ctx, res):
             if prog.get('mention_only'):
                 extra = pyrtl.WireVector(8, 'g%d_mention' % pi)
                 defaults[extra] = 77
+            if share_next is not None:
+                pj, progj, ctxj = share_next
+                with pyrtl.set_working_block(ctxj.block, no_sanity_check=True):
+                    livej = make_targets(progj, pj, ctxj, res, adopt=False)
+                for k, v in progj['defaults'].items():
+                    defaults[livej[int(k)]] = ctxj.data[1] if v == 'd1' else v
+                ctxj.shared = (livej, defaults)
 
         def val_of(a):
             v = a['val']
@@ -402,15 +433,33 @@ def run(case, res):
     world.setup_world(sched)
     ctxs = []
     cur = None
-    for pi, prog in enumerate(case['programs']):
-        if prog['block'] == 'fresh' or cur is None or not cur.healthy:
+    pending = {}
+    progs = case['programs']
+    for pi, prog in enumerate(progs):
+        if pi in pending:
+            cur = pending.pop(pi)
+            r = elaborate(prog, pi, cur, res, shared=cur.shared)
+        else:
+            r = None
+        if r is not None:
+            pass
+        elif prog['block'] == 'fresh' or cur is None or not cur.healthy:
             healthy = [c for c in ctxs if c.healthy]
             if prog['block'] == 'same' and healthy:
                 cur = healthy[-1]
             else:
                 cur = BlockCtx(len(ctxs))
                 ctxs.append(cur)
-        r = elaborate(prog, pi, cur, res)
+        if r is None:
+            share_next = None
+            if prog['defaults'] is not None:
+                nxt = [j for j in range(pi + 1, len(progs)) if progs[j]['defaults'] is not None][:1]
+                if nxt and progs[nxt[0]].get('shared_defaults') and nxt[0] not in pending:
+                    cj = BlockCtx(len(ctxs))
+                    ctxs.append(cj)
+                    pending[nxt[0]] = cj
+                    share_next = (nxt[0], progs[nxt[0]], cj)
+            r = elaborate(prog, pi, cur, res, share_next=share_next)
         if isinstance(r, Violation):
             return r
         res.log.log('builder', 'program', pi, r[0] if r[0] != 'ok' else 'ok')
